@@ -46,7 +46,16 @@ namespace smt
     SMT_EXPORT var lra_theory::new_var(const lin &l) noexcept
     { // we create, if needed, a new arithmetic variable which is equal to the given linear expression..
         assert(!l.vars.empty());
-        const std::string s_expr = to_string(l);
+        // the rows of the tableau can only mention non-basic variables: we replace the basic ones with their rows..
+        lin expr = l;
+        for (const auto &[v, c] : l.vars)
+            if (const auto at_v = tableau.find(v); at_v != tableau.cend())
+            {
+                expr.vars.erase(v);
+                expr += at_v->second->l * c;
+            }
+        assert(!expr.vars.empty());
+        const std::string s_expr = to_string(expr);
         if (const auto at_expr = exprs.find(s_expr); at_expr != exprs.cend()) // the expression already exists..
             return at_expr->second;
         else
@@ -54,10 +63,10 @@ namespace smt
             assert(sat->root_level());
             const var slack = new_var();
             exprs.emplace(s_expr, slack);
-            c_bounds[lb_index(slack)] = {lb(l), TRUE_lit}; // we set the lower bound at the lower bound of the given linear expression..
-            c_bounds[ub_index(slack)] = {ub(l), TRUE_lit}; // we set the upper bound at the upper bound of the given linear expression..
-            vals[slack] = value(l);                        // we set the initial value of the new slack variable at the value of the given linear expression..
-            new_row(slack, l);                             // we add a new row into the tableau..
+            c_bounds[lb_index(slack)] = {lb(expr), TRUE_lit}; // we set the lower bound at the lower bound of the given linear expression..
+            c_bounds[ub_index(slack)] = {ub(expr), TRUE_lit}; // we set the upper bound at the upper bound of the given linear expression..
+            vals[slack] = value(expr);                        // we set the initial value of the new slack variable at the value of the given linear expression..
+            new_row(slack, expr);                             // we add a new row into the tableau..
             return slack;
         }
     }
